@@ -4,10 +4,11 @@
 
   `NBTField{V: &v, AllowUnknownFields: a}.ReadFrom(r)`: a counting reader around `r` (not an `io.ByteReader`, so
   the decoder reads bytes through its one-byte adapter: same model), network format, `DisallowUnknownFields`
-  unless `a`, `Decode(&v)`; an error that `errors.Is(err, nbt.ErrEND)` is turned into success with `v`
-  untouched. Since the repairs `ErrEND` is returned exactly when the tag handed to `unmarshal` is TagEnd, which
-  only happens for the root: "the document is the single byte 00". The count returned is the number of bytes
-  read from `r`.
+  unless `a`, `Decode(&v)`; an error that `errors.Is(err, nbt.ErrEND)` with exactly one byte read (`cr.n == 1`)
+  is turned into success, and `v` is set to the zero value of its type ("no value": the C06 repairs — before
+  them a reused `v` kept what it held, and an `ErrEND` from deeper in the document counted as success too).
+  `ErrEND` is returned exactly when the tag handed to `unmarshal` is TagEnd, which only happens for the root:
+  "the document is the single byte 00". The count returned is the number of bytes read from `r`.
 
   `NBTField{V: v}.WriteTo(w)`: a nil `V` writes the single byte 00; otherwise `Encode(v, "")` in network format
   through a counting writer.
@@ -21,8 +22,8 @@ def fieldRead (cx : SnbtCarrier) (allowUnknown : Bool) (ty : GoType) (old : GoVa
   match decodeInto cx true (!allowUnknown) ty old s with
   | (.ok (v, _), s') => (.ok (v, s.flat.length - s'.flat.length), s')
   | (.err, s') =>
-    -- ErrEND (the root tag is TagEnd and the destination does not accept it): success, nothing stored
-    if s.flat.head? = some 0#8 then (.ok (old, s.flat.length - s'.flat.length), s') else (.err, s')
+    -- ErrEND (the root tag is TagEnd and the destination does not accept it): success, destination zeroed
+    if s.flat.head? = some 0#8 then (.ok (ty.zero, s.flat.length - s'.flat.length), s') else (.err, s')
   | (.panic, s') => (.panic, s')
 
 /-- `WriteTo`: the bytes written and the count returned; `none` is a nil `V` -/
